@@ -146,16 +146,17 @@ pub(super) async fn handle_tproxy_tcp(
 ) -> Result<(), FatalError> {
     let (listener, domain) = TcpListener::bind_tproxy(lhost, lport).await?;
     loop {
+        // Not being able to accept a TCP connection is a fatal error.
+        let (tcp_stream, _) = listener.accept().await.map_err(FatalError::ClientIo)?;
+        // Only `accept` again once this connection has its permit to send a request
+        // (see `handle_tcp`): the backpressure still reaches the TCP listener, but an
+        // idle listener does not sit on a slot of the request queue.
         // This fails only if main has exited, which is a fatal error.
         let stream_command_tx_permit = hr
             .stream_command_tx
             .reserve()
             .await
             .map_err(|_| FatalError::RequestStream)?;
-        // Only `accept` when we have a permit to send a request.
-        // This way, the backpressure is propagated to the TCP listener.
-        // Not being able to accept a TCP connection is a fatal error.
-        let (tcp_stream, _) = listener.accept().await.map_err(FatalError::ClientIo)?;
         let (tcp_stream, orig_dst) =
             get_tcp_orig_addr(tcp_stream, domain).map_err(FatalError::ClientIo)?;
         let Some(orig_dst) = orig_dst else {
